@@ -141,6 +141,15 @@ Proof.
          end; reflexivity.
 Qed.
 
+Lemma cb_macho_no_alloc R G rs ur au sr st hr d bs first rel rg m :
+  alloc (snd (MachoCb.cb_macho R G rs ur au sr st hr d bs first rel rg m)) = false.
+Proof.
+  unfold MachoCb.cb_macho.
+  repeat match goal with
+         | |- context [match ?x with _ => _ end] => destruct x
+         end; reflexivity.
+Qed.
+
 Ltac crush_alloc :=
   repeat match goal with
          | |- context [match ?x with _ => _ end] => destruct x
@@ -178,12 +187,12 @@ Proof. unfold pe_step. cbn [snd]. apply pe_step_raw_no_alloc. Qed.
 
 Lemma cb_x86_no_alloc md first rel rg m : alloc (snd (cb_x86 md first rel rg m)) = false.
 Proof.
-  unfold cb_x86. destruct (mdat md); [reflexivity | apply cb_dwarf_no_alloc | apply pe_step_no_alloc].
+  unfold cb_x86. destruct (mdat md); [reflexivity | apply cb_dwarf_no_alloc | apply pe_step_no_alloc | apply cb_macho_no_alloc].
 Qed.
 
 Lemma cb_a64_no_alloc md first rel rg m : alloc (snd (cb_a64 md first rel rg m)) = false.
 Proof.
-  unfold cb_a64. destruct (mdat md); [reflexivity | apply cb_dwarf_no_alloc | reflexivity].
+  unfold cb_a64. destruct (mdat md); [reflexivity | apply cb_dwarf_no_alloc | reflexivity | apply cb_macho_no_alloc].
 Qed.
 
 Section Generic.
